@@ -21,6 +21,8 @@ def gen_cases(rng, tier, scale):
     # a slice of the call-style matrix (C13 sweeps it in full)
     for _ in range((25 if tier == 'quick' else 300) * scale):
         cases += gen_matrix(rng, maxchain, rng.randint(1, 3), 12)
+    for _ in range((25 if tier == 'quick' else 500) * scale):            # several Parameters for ONE name: a passed value goes through the chain of one of them
+        cases += gen_duplicates(rng, maxchain, 4)
     for _ in range((220 if tier == 'quick' else 5000) * scale):          # functions with *args, principal use (Spec: spec_star_outcome)
         cases.append(gen_varargs_case(rng, maxchain))
     for _ in range((40 if tier == 'quick' else 600) * scale):            # positional-only parameters: implementation only
@@ -39,5 +41,5 @@ def run(tier, seed, replay=None):
                            'configurations (value_type, harness validator chains incl. chains with the first rejection at a chosen '
                            'position, required, default, harness external source / environment variable) x strict x ignore_input x '
                            '3 return_as modes x sync/async x calls (valid 88%, malformed 12%: surplus keyword, too many positionals, duplicate, '
-                           'Parameter the function lacks, name declared twice, no Parameter, strict with one undeclared argument) + a slice of the call-style matrix + functions with *args (8% of the random signatures, correspondence; a dedicated stream in their principal use judged against spec_star_outcome) + sequences of calls of functions sharing their Parameter objects; distinct = whole case; non-trivial = at least one '
+                           'Parameter the function lacks, name declared twice, no Parameter, strict with one undeclared argument) + a slice of the call-style matrix + declarations with several Parameters (plain / external) for one name, judged against every resolution of the duplicate + functions with *args (8% of the random signatures, correspondence; a dedicated stream in their principal use judged against spec_star_outcome) + sequences of calls of functions sharing their Parameter objects; distinct = whole case; non-trivial = at least one '
                            'Parameter and at least one supplied or external value')
